@@ -38,7 +38,7 @@ func Harness_C07_histories() {
 	for i := 0; i < n; i++ {
 		now += int64(verif_Byte()) * int64(time.Second)
 		verif_ClockSet(now)
-		switch verif_Choose(7) {
+		switch verif_Choose(8) {
 		case 0: // a transport connection arrives
 			if len(conns) >= 3 {
 				continue
@@ -146,6 +146,20 @@ func Harness_C07_histories() {
 			c.client = 0
 			c.zombie = true // no further traffic on it in this history; lookups must not return the evicted record
 			verif_Cover("C07.reregistered")
+		case 7: // a control connection is handed over to tunnel use (TunnelOpen on the same connection):
+			// its record leaves the registry, the transport stays open - and no lookup returns it any more
+			if len(conns) == 0 {
+				continue
+			}
+			c := conns[verif_Choose(len(conns))]
+			if !c.open || c.zombie || c.tunnel || sm.clientRegistry.GetByConnID(c.id) == nil {
+				continue
+			}
+			sm.clientRegistry.Unregister(c.id)
+			verif_Assert("C07.handover.transport_stays_open", !c.sp.IsClosed())
+			c.client = 0
+			c.tunnel = true
+			verif_Cover("C07.handover")
 		case 4: // periodic stale-connection sweep
 			had := map[string]bool{}
 			for _, c := range conns {
